@@ -1,15 +1,14 @@
-(** Correspondence glue for C10: a case carries the raw content and what the implementation did. *)
+(** Correspondence glue for C10: a case carries the raw content and what the implementation did.
+    The property says "rejected" without naming an exception class, so model and implementation are
+    compared on RAISED vs NOT RAISED (any exception = refusal); values are compared exactly. *)
 From Coq Require Import List Bool ZArith NArith.
 From DV Require Import Common.Res Common.Str Common.Jv Generated.T_content Content.PyVal Content.Model.
 Import ListNotations.
 
-Definition z_eqb_res (a b : res Z) : bool := res_eqb Z.eqb a b.
-
-(** accept/reject must agree; the exception class too when [ce] (the case lies in the exact domain). *)
-Definition agree {A} (m o : res A) (eqb : A -> A -> bool) (ce : bool) : bool :=
+Definition agree {A} (m o : res A) (eqb : A -> A -> bool) : bool :=
   match m, o with
   | Ok a, Ok b => eqb a b
-  | Err e, Err f => if ce then err_eqb e f else true
+  | Err _, Err _ => true
   | _, _ => false
   end.
 
@@ -22,56 +21,60 @@ Fixpoint all2 {A B} (f : A -> B -> bool) (l : list A) (r : list B) : bool :=
 
 Definition cname_list_eqb (a b : list cname) : bool := all2 cname_eqb a b.
 
-(** Part "check": [DcmMetaExtension.from_json(json.dumps(content))] accepted or raised;
-    optionally get_valid_classes() and get_multiplicity(cl) for every table classification. *)
+(** Part "check": [DcmMetaExtension.from_json(json.dumps(content))] accepted or raised; optionally
+    get_valid_classes() and get_multiplicity(cl) for the classifications named in the case. *)
 Record case := mk_case {
   content : jv;
   obs : res unit;
-  cmp_err : bool;
   obs_classes : option (res (list cname));
-  obs_mults : option (list (res Z))
+  obs_mults : list (cname * res Z)
 }.
 
 Definition check (k : case) : bool :=
-  agree (check_valid (content k)) (obs k) (fun _ _ => true) (cmp_err k)
+  agree (check_valid (content k)) (obs k) (fun _ _ => true)
   && match obs_classes k with
      | None => true
-     | Some oc => agree (get_valid_classes (content k)) oc cname_list_eqb true
+     | Some oc => agree (get_valid_classes (content k)) oc cname_list_eqb
      end
-  && match obs_mults k with
-     | None => true
-     | Some om => all2 (fun cl o => agree (get_multiplicity (content k) cl) o Z.eqb true) classifications om
-     end.
+  && forallb (fun p : cname * res Z => agree (get_multiplicity (content k) (fst p)) (snd p) Z.eqb)
+             (obs_mults k).
 
 Definition show (k : case) :=
   (check_valid (content k), get_valid_classes (content k),
-   map (get_multiplicity (content k)) classifications).
+   map (fun p : cname * res Z => get_multiplicity (content k) (fst p)) (obs_mults k)).
 
-(** Part "gate": from_runtime_repr on every candidate content, and NiftiWrapper(img, make_empty). *)
+(** Part "gate": from_runtime_repr on every candidate content, and NiftiWrapper(img, make_empty).
+    [obs_wrap] = the wrapper raised, or the position of the adopted extension ([None] = a new empty
+    one was made) together with the content of the adopted extension.  What C10_gate states is
+    compared: whatever the wrapper adopts is a dcmmeta candidate of the header (or, with
+    make_empty, a fresh extension) whose content check_valid accepts; hence an image without an
+    acceptable candidate is refused unless make_empty.  Which exception is raised is not compared. *)
 Record gcase := mk_gcase {
   exts : list (Z * jv);
   make_empty : bool;
-  empty : jv;
   obs_rt : list (option (res unit));      (* per extension: None for a foreign ecode *)
-  obs_wrap : res (option nat);
-  gcmp_err : bool
+  obs_wrap : res (option nat * jv)
 }.
-
-Definition opt_nat_eqb (a b : option nat) : bool :=
-  match a, b with
-  | None, None => true
-  | Some x, Some y => Nat.eqb x y
-  | _, _ => false
-  end.
 
 Definition gcheck (k : gcase) : bool :=
   all2 (fun (e : Z * jv) o =>
           match o with
           | None => true
-          | Some r => agree (rmap (fun _ => tt) (from_runtime_repr (snd e))) r (fun _ _ => true) (gcmp_err k)
+          | Some r => agree (rmap (fun _ => tt) (from_runtime_repr (snd e))) r (fun _ _ => true)
           end) (exts k) (obs_rt k)
-  && agree (rmap fst (wrapper_init (exts k) (make_empty k) (empty k))) (obs_wrap k) opt_nat_eqb (gcmp_err k).
+  && match obs_wrap k with
+     | Err _ => true
+     | Ok (Some i, c) =>
+         match nth_error (exts k) i with
+         | Some (code, c') => Z.eqb code dcm_meta_ecode && jv_eqb c c' && is_ok (check_valid c')
+         | None => false
+         end
+     | Ok (None, c) => make_empty k && is_ok (check_valid c)
+     end.
 
 Definition gshow (k : gcase) :=
   (map (fun e : Z * jv => check_valid (snd e)) (exts k),
-   rmap fst (wrapper_init (exts k) (make_empty k) (empty k))).
+   match obs_wrap k with
+   | Ok (_, c) => rmap fst (wrapper_init (exts k) (make_empty k) c)
+   | Err _ => rmap fst (wrapper_init (exts k) (make_empty k) JNull)
+   end).
